@@ -9,7 +9,7 @@ claimed = [c['property_id'] for c in m['checks']]
 na = [c['property_id'] for c in m.get('not_applicable', [])]
 print('claimed', len(claimed), 'not_applicable', len(na), 'missing', sorted(set(props) - set(claimed) - set(na)))
 sch = json.load(open('/root/.vp/EVIDENCE.schema.json'))
-for f in sorted(glob.glob('/verif/evidence/*.json')):
+for f in sorted(glob.glob('/verif/evidence/C*.json')):
     try:
         jsonschema.validate(json.load(open(f)), sch)
     except Exception as e:
